@@ -28,7 +28,10 @@ ASSUMPTIONS = ['the stand-in communicator follows mpi4py semantics for the '
                'calls enspara uses (pickled lower-case collectives, in-place '
                'Bcast, rendezvous); no real MPI library exists here',
                'tie-free data (random floats) for bit-for-bit equality with '
-               'the serial run']
+               'the serial run',
+               'every rank owns at least one trajectory / file (with fewer '
+               'files than ranks load_npy_as_striped raises UnboundLocalError '
+               'on the idle rank - noted, outside the worlds generated)']
 
 
 def shards(tier):
@@ -366,6 +369,8 @@ def run_case(ctx, kind, rng, idx):
     # ---------------- (e) striped loading ------------------------------------------
     if idx % 2 == 0:
         striped_io(ctx, rng, size, trajs, lens, wseed)
+    if idx % 40 == 7:
+        striped_io_big(ctx, rng, wseed)
 
     if size >= 2 and len(owners) >= 2 and (single or len(set(lens)) > 1):
         ctx.nontriv(size, tuple(lens), X.tobytes())
@@ -398,6 +403,52 @@ def check_distributed_medoids(ctx, X, results, serial, k, size, what):
         ctx.violation('mpi.%s.cost-increased' % what,
                       'cost %.12g after distributed sweeps > %.12g of the '
                       'k-centers start' % (c1, c0))
+
+
+def striped_io_big(ctx, rng, wseed):
+    """One feature file well beyond 16 MiB next to a small one, strides that
+    do not divide typical block sizes: a loader that copies in blocks has to
+    keep the stride phase across block boundaries."""
+    d = tempfile.mkdtemp(prefix='iobig', dir=ctx.tmp)
+    try:
+        nbig = int(rng.integers(1_150_000, 1_600_000))
+        width = 4
+        big = np.arange(nbig * width, dtype=np.float32).reshape(nbig, width)
+        small = -np.arange(37 * width, dtype=np.float32).reshape(37, width)
+        files = [big, small] if rng.random() < 0.5 else [small, big]
+        paths = []
+        for i, t in enumerate(files):
+            p = os.path.join(d, 'g%d.npy' % i)
+            np.save(p, t)
+            paths.append(p)
+        stride = [3, 5, 6, 7, 2][int(rng.integers(0, 5))]
+        size = int(rng.integers(1, 3))      # every rank owns a file
+
+        def io_rank(r):
+            gl, data = mio.load_npy_as_striped(paths, stride=stride)
+            return list(gl), np.asarray(data)
+        world, results, errors = MPI.run_world(size, io_rank, seed=wseed + 5)
+        ctx.count('worlds_run')
+        ctx.count('large_file_loads')
+        log_world(ctx, world, errors)
+        if world_errors(ctx, errors, 'striped-io-large[stride=%d]' % stride):
+            return
+        exp_lens = [len(t[::stride]) for t in files]
+        for r, (gl, data) in enumerate(results):
+            mine = [files[i][::stride] for i in range(r, len(files), size)]
+            exp = np.concatenate(mine) if mine else np.zeros((0, width))
+            if [int(x) for x in gl] != exp_lens:
+                ctx.violation('mpi.io.npy.lengths[large-file]',
+                              'rank %d: %s vs %s' % (r, list(gl), exp_lens))
+            if data.shape != exp.shape or not np.array_equal(data, exp):
+                nbad = int((data != exp).any(axis=1).sum()) \
+                    if data.shape == exp.shape else -1
+                ctx.violation('mpi.io.npy.data[large-file]',
+                              'rank %d of %d, stride %d, %d-frame file: %d '
+                              'loaded frames differ from file[::stride]' % (
+                                  r, size, stride, nbig, nbad))
+    finally:
+        shutil.rmtree(d, ignore_errors=True)
 
 
 def striped_io(ctx, rng, size, trajs, lens, wseed):
